@@ -4,7 +4,8 @@
 // (word-prefix truncations, single-token deletions, duplications, swaps,
 // indentation changes, line deletion/duplication, empty and garbage files),
 // for all five device types and both argument positions, and reports every
-// runtime panic (deliberate errlog aborts are not crashes).
+// runtime panic (deliberate errlog aborts are not crashes) and every
+// execution that does not return within the hang limit.
 package main
 
 import (
@@ -17,6 +18,8 @@ import (
 	"runtime/debug"
 	"sort"
 	"strings"
+	"sync"
+	"time"
 
 	"github.com/hknutzen/Netspoc-Approve/go/pkg/asa"
 	"github.com/hknutzen/Netspoc-Approve/go/pkg/codefiles"
@@ -115,7 +118,41 @@ type finding struct {
 var frameRe = regexp.MustCompile(`(/repo/go/pkg/[^\s:]+\.go):(\d+)`)
 
 // run executes parse + merge + diff; returns panic site ("" if none)
+// watchdog: the input that is being executed and since when; a run that does
+// not return within hangLimit is a hang (the property demands termination)
+var watch struct {
+	mu                    sync.Mutex
+	active                bool
+	start                 time.Time
+	model, dev, spoc, raw string
+}
+var hangLimit = 20 * time.Second
+var onHang func(model, dev, spoc, raw string)
+
+func startWatchdog() {
+	go func() {
+		for {
+			time.Sleep(500 * time.Millisecond)
+			watch.mu.Lock()
+			hung := watch.active && time.Since(watch.start) > hangLimit
+			m, d, sp, r := watch.model, watch.dev, watch.spoc, watch.raw
+			watch.mu.Unlock()
+			if hung && onHang != nil {
+				onHang(m, d, sp, r)
+			}
+		}
+	}()
+}
+
 func run(model, dev, spoc, raw string) (site, msg string) {
+	watch.mu.Lock()
+	watch.active, watch.start, watch.model, watch.dev, watch.spoc, watch.raw = true, time.Now(), model, dev, spoc, raw
+	watch.mu.Unlock()
+	defer func() {
+		watch.mu.Lock()
+		watch.active = false
+		watch.mu.Unlock()
+	}()
 	defer func() {
 		if r := recover(); r != nil {
 			if fmt.Sprintf("%T", r) == "errlog.bailout" {
@@ -422,7 +459,9 @@ func main() {
 	determinism := flag.Int("determinism", 0, "C16: plan every test case N times and compare script, warnings and status")
 	corpus := flag.String("corpus", "", "C20: directory with stored reproducers (JSON: model, device, netspoc, raw) replayed on every run")
 	extra := flag.String("extra", "", "C16: directory with extra MODEL_name.device / .netspoc pairs (optional .raw)")
+	hang := flag.Int("hang", 20, "seconds after which one execution counts as a hang")
 	flag.Parse()
+	hangLimit = time.Duration(*hang) * time.Second
 	if *determinism > 0 {
 		tmp, _ := os.MkdirTemp("", "fuzzdet")
 		defer os.RemoveAll(tmp)
@@ -480,6 +519,11 @@ func main() {
 		json.Unmarshal(data, &f)
 		errlog.Quiet = true
 		errlog.SetStderrLog("/dev/null")
+		onHang = func(m, d, sp, r string) {
+			fmt.Printf("REPRODUCED: no termination within %v\n", hangLimit)
+			os.Exit(0)
+		}
+		startWatchdog()
 		site, msg := run(f.Model, f.Device, f.Spoc, f.Raw)
 		if site != "" {
 			fmt.Printf("REPRODUCED: runtime panic at %s: %s\n", site, msg)
@@ -498,6 +542,24 @@ func main() {
 	runs := 0
 	ncases := 0
 	corpusRuns := 0
+	// a hang ends the exploration: the findings so far and the hanging input are
+	// written, the rest of the family stays unexplored in this run
+	onHang = func(m, d, sp, r string) {
+		var list []*finding
+		for _, f := range found {
+			list = append(list, f)
+		}
+		list = append(list, &finding{Site: "hang", Panic: fmt.Sprintf("no termination within %v", hangLimit), Model: m, Device: d, Spoc: sp, Raw: r, Count: 1})
+		sort.Slice(list, func(i, j int) bool { return list[i].Site < list[j].Site })
+		res := map[string]any{"cases": ncases, "runs": runs, "corpus_runs": corpusRuns, "panic_sites": len(list), "findings": list, "aborted_by_hang": true}
+		data, _ := json.MarshalIndent(res, "", " ")
+		if *out != "" {
+			os.WriteFile(*out, data, 0644)
+		}
+		os.Stdout.WriteString(fmt.Sprintf("HANG [%s]: no termination within %v\n", m, hangLimit))
+		os.Exit(3)
+	}
+	startWatchdog()
 	record := func(site, msg string, c testCase, dev, spoc, raw string) {
 		if site == "" {
 			return
